@@ -20,10 +20,10 @@ import (
 	"github.com/polynetwork/poly/common"
 	"github.com/polynetwork/poly/common/log"
 	"github.com/polynetwork/poly/native"
-	scom "github.com/polynetwork/poly/native/service/cross_chain_manager/common"
 	ccbsc "github.com/polynetwork/poly/native/service/cross_chain_manager/bsc"
-	cceth "github.com/polynetwork/poly/native/service/cross_chain_manager/eth"
 	ccbytom "github.com/polynetwork/poly/native/service/cross_chain_manager/bytom"
+	scom "github.com/polynetwork/poly/native/service/cross_chain_manager/common"
+	cceth "github.com/polynetwork/poly/native/service/cross_chain_manager/eth"
 	ccheco "github.com/polynetwork/poly/native/service/cross_chain_manager/heco"
 	cchsc "github.com/polynetwork/poly/native/service/cross_chain_manager/hsc"
 	ccpixie "github.com/polynetwork/poly/native/service/cross_chain_manager/pixiechain"
@@ -68,7 +68,9 @@ func chainIDBig() *big.Int { return big.NewInt(evmChainID) }
 
 var routers = map[string]*Router{
 	"eth": {Name: "eth", ID: utils.ETH_ROUTER, Family: "eth",
-		Deposit: func(ns *native.NativeService) (*scom.MakeTxParam, error) { return cceth.NewETHHandler().MakeDepositProposal(ns) }},
+		Deposit: func(ns *native.NativeService) (*scom.MakeTxParam, error) {
+			return cceth.NewETHHandler().MakeDepositProposal(ns)
+		}},
 	"bsc": {Name: "bsc", ID: utils.BSC_ROUTER, Family: "bsc",
 		SealHash:    func(h *etypes.Header) ecommon.Hash { return bsc.SealHash(h, chainIDBig()) },
 		CanonHeight: bsc.GetCanonicalHeight,
@@ -79,8 +81,10 @@ var routers = map[string]*Router{
 			}
 			return x.Header.Hash(), x.Header.Root, true, nil
 		},
-		Deposit: func(ns *native.NativeService) (*scom.MakeTxParam, error) { return ccbsc.NewHandler().MakeDepositProposal(ns) },
-		NoRule:  map[string]bool{"time": true}},
+		Deposit: func(ns *native.NativeService) (*scom.MakeTxParam, error) {
+			return ccbsc.NewHandler().MakeDepositProposal(ns)
+		},
+		NoRule: map[string]bool{"time": true}},
 	"bytom": {Name: "bytom", ID: utils.BYTOM_ROUTER, Family: "bsc",
 		SealHash:    func(h *etypes.Header) ecommon.Hash { return bytom.SealHash(h, chainIDBig()) },
 		CanonHeight: bytom.GetCanonicalHeight,
@@ -167,12 +171,16 @@ type ChainCfg struct {
 	Sets          [][]string
 	GenesisSigner string
 	G0            uint64
+	Epoch         uint64 // clique only
 }
 
 var chainCfgs = map[string]ChainCfg{
 	"A": {Sets: [][]string{{"a", "b", "c"}, {"b", "c", "d"}, {"d", "a"}}, GenesisSigner: "c", G0: 200},
 	"B": {Sets: [][]string{{"a", "b", "c", "d"}, {"a", "b", "c", "d", "e"}, {"e"}}, GenesisSigner: "c", G0: 200},
 	"F": {Sets: [][]string{{"a", "b", "c"}, {"a", "b", "c"}}, GenesisSigner: "c", G0: 200},
+	"P": {Sets: [][]string{{"a", "b", "c"}, {"a", "b", "c"}, {"a", "b", "d"}}, GenesisSigner: "b", G0: 200},
+	"C": {Sets: [][]string{{"a", "b", "c"}, {"a", "b", "c"}, {"a", "b", "d"}}, GenesisSigner: "c", G0: 200, Epoch: 4},
+	"D": {Sets: [][]string{{"a", "b", "c", "d", "e"}, {"a", "b", "c", "d", "e"}}, GenesisSigner: "c", G0: 200, Epoch: 4},
 }
 
 var keyNames = []string{"a", "b", "c", "d", "e", "x", "y"}
@@ -212,6 +220,28 @@ func detKey(seed uint64, name string) *ecdsa.PrivateKey {
 // one operator account for all worlds (account generation is slow-ish and irrelevant)
 var opAccount = account.NewAccount("")
 
+// makeKeys: validator names a..e are assigned in ascending address order (clique orders its signers by address; for
+// the other families the order is the one written into the extra data, so any assignment will do).
+func (w *World) makeKeys(seed uint64) {
+	var ks []*ecdsa.PrivateKey
+	for i := 0; i < 5; i++ {
+		ks = append(ks, detKey(seed, fmt.Sprintf("validator-%d", i)))
+	}
+	sort.Slice(ks, func(i, j int) bool {
+		a, b := crypto.PubkeyToAddress(ks[i].PublicKey), crypto.PubkeyToAddress(ks[j].PublicKey)
+		return strings.Compare(string(a[:]), string(b[:])) < 0
+	})
+	for i, n := range []string{"a", "b", "c", "d", "e"} {
+		w.Keys[n] = ks[i]
+	}
+	for _, n := range []string{"x", "y"} {
+		w.Keys[n] = detKey(seed, n)
+	}
+	for n, k := range w.Keys {
+		w.Addr[n] = crypto.PubkeyToAddress(k.PublicKey)
+	}
+}
+
 func (w *World) valBytes(set int) []byte {
 	var b []byte
 	for _, n := range w.Cfg.Sets[set-1] {
@@ -237,12 +267,14 @@ func NewWorldCCM(r *Router, cfg ChainCfg, seed uint64, wait uint64, genesisRoot 
 		Base: timeBase, Hdr: map[string]*etypes.Header{}, ByHash: map[ecommon.Hash]string{}, Wait: wait}
 	w.SB.Height = sandboxBlock
 	w.SB.SeedValidators([]*account.Account{w.Op}, 1)
-	for _, n := range keyNames {
-		w.Keys[n] = detKey(seed, n)
-		w.Addr[n] = crypto.PubkeyToAddress(w.Keys[n].PublicKey)
-	}
+	w.makeKeys(seed)
 	w.CCMC = ccm
-	extra, _ := json.Marshal(map[string]interface{}{"ChainID": evmChainID, "Period": periodSecs})
+	epoch := cfg.Epoch
+	if epoch == 0 {
+		epoch = 100
+	}
+	extra, _ := json.Marshal(map[string]interface{}{"ChainID": evmChainID, "Period": periodSecs, "Epoch": epoch,
+		"Sprint": borSprint, "ProducerDelay": borProducerDelay, "BackupMultiplier": borBackup, "HeimdallPolyChainID": 15})
 	ns := w.SB.Service(nativekit.Tx(), nil)
 	vio.Must(scm.PutSideChain(ns, &scm.SideChain{ChainId: sideChainID, Router: r.ID, Name: r.Name, BlocksToWait: wait,
 		CCMCAddress: w.CCMC.Bytes(), ExtraInfo: extra}))
@@ -253,6 +285,12 @@ func NewWorldCCM(r *Router, cfg ChainCfg, seed uint64, wait uint64, genesisRoot 
 	ex = append(ex, make([]byte, 65)...)
 	g := &etypes.Header{UncleHash: etypes.CalcUncleHash(nil), Coinbase: w.Addr[cfg.GenesisSigner], Root: genesisRoot,
 		Number: new(big.Int).SetUint64(cfg.G0), GasLimit: gasLimit0, Time: w.Base, Extra: ex, Difficulty: big.NewInt(2)}
+	if r.Family == "clique" { // checkpoint genesis: zero beneficiary, the seal is what counts
+		g.Coinbase = ecommon.Address{}
+	}
+	if r.Family == "bor" { // genesis is inside a sprint: no validator bytes
+		g.Extra = make([]byte, 32+65)
+	}
 	w.seal(g, w.Keys[cfg.GenesisSigner])
 	w.Genesis = g
 	w.Hdr[""] = g
@@ -261,8 +299,16 @@ func NewWorldCCM(r *Router, cfg ChainCfg, seed uint64, wait uint64, genesisRoot 
 	for _, n := range cfg.Sets[0] {
 		prev = append(prev, w.Addr[n])
 	}
-	gj, err := json.Marshal(map[string]interface{}{"Header": g,
-		"PrevValidators": []map[string]interface{}{{"Height": cfg.G0 - 100, "Validators": prev}}})
+	var gj []byte
+	var err error
+	if r.Family == "clique" {
+		gj, err = json.Marshal(g)
+	} else if r.Family == "bor" {
+		gj, err = json.Marshal(w.borGenesisJSON(g))
+	} else {
+		gj, err = json.Marshal(map[string]interface{}{"Header": g,
+			"PrevValidators": []map[string]interface{}{{"Height": cfg.G0 - 100, "Validators": prev}}})
+	}
 	vio.Must(err)
 	p := &hscom.SyncGenesisHeaderParam{ChainID: sideChainID, GenesisHeader: gj}
 	sink := common.NewZeroCopySink(nil)
@@ -287,6 +333,23 @@ func (w *World) Build(parent *etypes.Header, e Elem, f string, root ecommon.Hash
 		Difficulty: big.NewInt(int64(e.D))}
 	sealKey := w.Keys[e.S]
 	signed := true
+	if w.R.Family == "clique" {
+		h.Coinbase = ecommon.Address{} // no vote
+	}
+	if w.R.Family == "bor" { // a backup producer has to wait succession * BackupMultiplier longer
+		if su := w.borSuccession(e.S); su > 0 {
+			h.Time += uint64(su) * borBackup
+		}
+		if e.A != 0 { // validator entries are 40 bytes (address + 20-byte power) in bor
+			ex := make([]byte, 32)
+			for _, n := range w.Cfg.Sets[e.A-1] {
+				ex = append(ex, w.Addr[n].Bytes()...)
+				ex = append(ex, make([]byte, 19)...)
+				ex = append(ex, 10)
+			}
+			h.Extra = append(ex, make([]byte, 65)...)
+		}
+	}
 	switch f {
 	case "ok", "":
 	case "novanity":
@@ -314,9 +377,11 @@ func (w *World) Build(parent *etypes.Header, e Elem, f string, root ecommon.Hash
 	case "future":
 		h.Time = uint64(time.Now().Unix()) + 365*86400
 	case "time":
-		h.Time = parent.Time + periodSecs - 1
+		h.Time = h.Time - 1
 	case "coinbase":
 		sealKey = w.Keys["y"]
+	case "nonce":
+		h.Nonce = etypes.BlockNonce{1}
 	case "badsig":
 		signed = false
 		g := crypto.Keccak256([]byte("garbage"), h.ParentHash.Bytes())
@@ -345,7 +410,13 @@ type Obs struct {
 func (w *World) syncInput(hdrs ...*etypes.Header) []byte {
 	var hb [][]byte
 	for _, h := range hdrs {
-		b, err := json.Marshal(h)
+		var b []byte
+		var err error
+		if w.R.Family == "bor" {
+			b, err = json.Marshal(map[string]interface{}{"Header": h, "Proof": nil})
+		} else {
+			b, err = json.Marshal(h)
+		}
 		vio.Must(err)
 		hb = append(hb, b)
 	}
